@@ -73,8 +73,19 @@ def build():
          ("before_stmt_re", r"let mut \w+ = (\w+);\s*\w+\.append\(&mut (\w+)\);", 1, "let ghost r_before = $1; let ghost s_before = $2; let ghost sig0 = $sig;")],
         rewrites=[("T-ITER", r"s\.resize_with\((?P<n>[^,]*), \|\| 0\);", r"crate::openssl::bn::resize_zero(&mut s, \g<n>);", None)],
         names={"sig": r"let (\w+) = EcdsaSig::sign\("})})
+    JWK_LBL = "//@C15.jwk_is_the_one_of_the_key_type,C05.thumbprint_input_of_the_account_key_is_the_rfc7638_form,C04.jwk_member_is_the_exact_public_key"
     u.verify(K, "KeyPair::get_jwk_public_key", "crypto", props=["C15", "C05", "C04"], fns={"get_jwk_public_key": FnSpec(ret="r", sig="""
     requires self.wf(),
+    ensures r matches Ok(j) ==> j.members@ =~= jwk_members(*self, thumbprint), """ + JWK_LBL + """
+""")})
+    # the two public entry points: the JWK sent to the CA has alg / use, the RFC 7638 thumbprint input has the required members only
+    u.verify(K, "KeyPair::jwk_public_key", "crypto", props=["C15", "C04"], fns={"jwk_public_key": FnSpec(ret="r", sig="""
+    requires self.wf(),
+    ensures r matches Ok(j) ==> j.members@ =~= jwk_members(*self, false), //@C15.public_jwk_has_the_registered_members,C04.jwk_member_is_the_exact_public_key
+""")})
+    u.verify(K, "KeyPair::jwk_public_key_thumbprint", "crypto", props=["C15", "C05"], fns={"jwk_public_key_thumbprint": FnSpec(ret="r", sig="""
+    requires self.wf(),
+    ensures r matches Ok(j) ==> j.members@ =~= jwk_members(*self, true), //@C15.thumbprint_input_is_the_rfc7638_canonical_form,C05.thumbprint_input_of_the_account_key_is_the_rfc7638_form
 """)})
     u.verify(K, "KeyPair::get_rsa_jwk", "crypto", props=["C15", "C05", "C04"], fns={"get_rsa_jwk": FnSpec(ret="r", sig="""
     requires self.wf(), self.key_type is Rsa2048 || self.key_type is Rsa4096,
@@ -152,6 +163,27 @@ impl KeyPair {
     pub open spec fn wf(&self) -> bool { self.inner_key.kind@ == kind_of(self.key_type) }
 }
 pub uninterp spec fn hash_spec(h: HashFunction, data: Seq<u8>) -> Seq<u8>;
+// RFC 8037 OKP JWK of an EdDSA key (get_eddsa_jwk is not under contract: its members are this uninterpreted map)
+pub uninterp spec fn okp_jwk(k: KeyPair, thumbprint: bool) -> Map<Seq<char>, Seq<char>>;
+// the JWK of a key pair: with alg / use for the CA, or the RFC 7638 thumbprint input (required members only)
+pub open spec fn jwk_members(k: KeyPair, thumbprint: bool) -> Map<Seq<char>, Seq<char>> {
+    match k.key_type {
+        KeyType::Rsa2048 | KeyType::Rsa4096 => {
+            let e = crate::vb64::b64url(crate::openssl::rsa::rsa_e(k.inner_key.ident@));
+            let n = crate::vb64::b64url(crate::openssl::rsa::rsa_n(k.inner_key.ident@));
+            if thumbprint { map!["e"@ => e, "kty"@ => "RSA"@, "n"@ => n] }
+            else { map!["alg"@ => "RS256"@, "e"@ => e, "kty"@ => "RSA"@, "n"@ => n, "use"@ => "sig"@] }
+        }
+        KeyType::EcdsaP256 | KeyType::EcdsaP384 | KeyType::EcdsaP521 => {
+            let sz = ec_size(k.key_type);
+            let x = crate::vb64::b64url(crate::openssl::bn::left_pad(crate::openssl::ec::ec_x(k.inner_key.ident@), sz));
+            let y = crate::vb64::b64url(crate::openssl::bn::left_pad(crate::openssl::ec::ec_y(k.inner_key.ident@), sz));
+            if thumbprint { map!["crv"@ => crv_name(k.key_type), "kty"@ => "EC"@, "x"@ => x, "y"@ => y] }
+            else { map!["alg"@ => es_name(k.key_type), "crv"@ => crv_name(k.key_type), "kty"@ => "EC"@, "use"@ => "sig"@, "x"@ => x, "y"@ => y] }
+        }
+        _ => okp_jwk(k, thumbprint),
+    }
+}
 // sig is an RSASSA-PKCS1-v1_5 signature of data by the key, over the digest numbered as in MessageDigest (1 = SHA-256)
 pub uninterp spec fn rsa_pkcs1_valid(key: int, digest: u8, data: Seq<u8>, sig: Seq<u8>) -> bool;
 pub proof fn lemma_maps() {}
@@ -176,7 +208,8 @@ impl KeyPair {
     fn sign_eddsa(&self, data: &[u8]) -> Result<Vec<u8>, Error> { unimplemented!() }
     // X: the Ed25519/Ed448 `x` is cut out of a PEM string by offset - outside what a contract on this code can state
     #[verifier::external_body]
-    fn get_eddsa_jwk(&self, thumbprint: bool) -> Result<Value, Error> { unimplemented!() }
+    fn get_eddsa_jwk(&self, thumbprint: bool) -> (r: Result<Value, Error>)
+        ensures r matches Ok(j) ==> j.members@ == okp_jwk(*self, thumbprint) { unimplemented!() }
 }
 #[verifier::external_body]
 fn gen_rsa_pair(nb_bits: u32) -> (r: Result<PKey<Private>, Error>)
